@@ -203,6 +203,10 @@ def c01_catalogue(quick):
     mr = [U(1, links=[2, 3, 4, 5]), U(2, links=[dict(to=6, refresh='plain')]), U(3, links=[dict(to=7, refresh='nourl')]),
           U(4, links=[dict(to=8, refresh='sq')]), U(5, links=[dict(to=9, refresh='comma')]), U(6), U(7), U(8), U(9)]
     out.append(scenario('meta-refresh-spellings', mr, N=1))
+    # image candidates of a srcset attribute: commas inside the URL (image services), tab / line break before the descriptor
+    ss = [U(1, links=[dict(to=2, inline=1, srcset='one'), dict(to=3, inline=1, srcset='one'), 4]),
+          U(2, path='/img/w_300,h_200/a.png'), U(3, path='/img/b.png'), U(4)]
+    out.append(scenario('srcset-commas-and-tabs', ss, dict(pagereq=1), N=1))
     # "pretty" URLs, documents kept on disk: a page that is also the parent of a page that is also a parent (the file
     # of the one stands where the directory of the other belongs - twice on one path)
     pretty = [U(1, links=[2]), U(2, path='/blog', links=[3]), U(3, path='/blog/post1', links=[4, 5]),
